@@ -1326,7 +1326,11 @@ class Lib:
                 nr = st.fresh("next_ref", IntS)
                 st.assume(nr >= st.next_ref)
                 st.next_ref = nr
+            if fc.fs_effects is not None:
+                ghosts = [g for g in ghosts if g != "fs"]
             self.havoc_ghosts(st, ghosts, False)
+            if fc.fs_effects is not None:
+                self.apply_fs_effects(st, fc)
             self.ext.call_effects(st, fc, env, pre)
             outcomes = ["normal"] + list(fc.raises.keys())
             c = st.choose(len(outcomes), f"call:{fc.qualname}@{line}") \
@@ -1349,6 +1353,35 @@ class Lib:
             st.locals = saved_locals
             st.old = saved_old
             st.ghost["result"] = saved_ghost_result
+
+    def fs_effect_terms(self, st, fc, ds, disk):
+        """Apply `fs_effects` = [(path, content|None[, cond])] functionally to
+        (DSTATE, DISK), expressions evaluated in the current environment.
+        Returns (ds', disk', paths with unspecified content)."""
+        eng = self.eng
+        unknown = []
+        for eff in fc.fs_effects:
+            pth = eng.coerce(st, eng.spec_eval(st, eff[0]), "U")
+            cond = eng.spec_bool(st, eff[2]) if len(eff) > 2 else \
+                z3.BoolVal(True)
+            ds = z3.Store(ds, pth, z3.If(cond, z3.IntVal(2), ds[pth]))
+            if eff[1] is None:
+                c = st.fresh("content", U)
+                unknown.append(pth)
+            else:
+                c = eng.coerce(st, eng.spec_eval(st, eff[1]), "U")
+            disk = z3.Store(disk, pth, z3.If(cond, c, disk[pth]))
+        return ds, disk, unknown
+
+    def apply_fs_effects(self, st, fc):
+        for m in self.ext.models:
+            if type(m).__name__ == "DiskModel":
+                m._facts(st)
+        ds, disk, _ = self.fs_effect_terms(st, fc, st.ghost["DSTATE"],
+                                           st.ghost["DISK"])
+        st.ghost["DSTATE"] = ds
+        st.ghost["DISK"] = disk
+        st.ghost["FXN"] = VInt(st.ghost["FXN"].t + len(fc.fs_effects))
 
     def frame_axioms(self, st, fc, pre):
         """`Cls.f@expr` in modifies: only the component at reference `expr`
@@ -1589,7 +1622,8 @@ class Lib:
         for n in names:
             shape = sorts.get(n, "int")
             sort = eng.sort_of(shape)
-            c = z3.Const(f"{n}!q", sort)
+            self._qctr = getattr(self, "_qctr", 0) + 1
+            c = z3.Const(f"{n}!q{self._qctr}", sort)
             vs.append(c)
             st.locals[n] = self.spec_wrap(st, shape, c)
         try:
